@@ -169,9 +169,15 @@ def run_op(env, c, op, kv, tag, concrete=False):
                 c.ctrlpoints = 1
         elif op == "weights_setter":
             which = env.real(f"{tag}w", nice=(0, 3))
-            env.assume((which == 0) | (which == 1) | (which == 2))
+            env.assume((which == 0) | (which == 1) | (which == 2) | (which == 3) | (which == 4) | (which == 5))
             if bool(which == 0):
                 c.weights = conc_weights(n, 9)
+            elif bool(which == 3):
+                c.weights = conc_weights(n + 1, 9)                                 # one weight too many (all positive)
+            elif bool(which == 4):
+                c.weights = conc_weights(n - 1, 9)                                 # one weight too few (all positive)
+            elif bool(which == 5):
+                c.weights = [-w for w in conc_weights(n + 2, 4)]                   # all negative, wrong length
             elif bool(which == 1):
                 c.weights = [F(1)] + [F(-1)] * (n - 1)                            # weight function crosses zero
             else:
